@@ -498,6 +498,56 @@ func (c *e2eCase) listAndScan() {
 	}
 }
 
+// indexQueries: List / RangeScan over the secondary index "idx" (C15 through the client): the primary keys of
+// exactly the live records that declare a secondary key in the range, over the consulted shards, as a multiset
+// (the order of a multi-shard index scan is not specified by the listed properties).
+func (c *e2eCase) indexQueries() {
+	a, b := c.bounds()
+	pk := c.drawPK()
+	lopts := []oxia.ListOption{oxia.UseIndex("idx")}
+	sopts := []oxia.RangeScanOption{oxia.UseIndex("idx")}
+	if pk != nil {
+		lopts = append(lopts, oxia.PartitionKey(*pk))
+		sopts = append(sopts, oxia.PartitionKey(*pk))
+	}
+	var want []string
+	for _, sh := range c.shardsFor(pk) {
+		for k, r := range c.models[sh].Recs {
+			for _, ix := range r.Indexes {
+				if ix.Name == "idx" && model.CompareKeys(ix.Secondary, a) >= 0 && model.CompareKeys(ix.Secondary, b) < 0 {
+					want = append(want, k)
+				}
+			}
+		}
+	}
+	sort.Strings(want)
+	ctx, cancel := bg()
+	got, err := c.cl.List(ctx, a, b, lopts...)
+	cancel()
+	c.logf("list(idx)[%q,%q) pk=%v -> %d keys err=%v", a, b, strOf(pk), len(got), err)
+	if err != nil {
+		c.fail("list on the index failed: %v", err)
+	}
+	gs := append([]string(nil), got...)
+	sort.Strings(gs)
+	if strings.Join(gs, "\x00") != strings.Join(want, "\x00") {
+		c.fail("list(index idx,[%q,%q),pk=%v) returned %q, the live records declaring a secondary key in the range are %q", a, b, strOf(pk), got, want)
+	}
+	ctx2, cancel2 := context.WithTimeout(context.Background(), 10*time.Second)
+	defer cancel2()
+	var scanned []string
+	for r := range c.cl.RangeScan(ctx2, a, b, sopts...) {
+		if r.Err != nil {
+			c.fail("range scan on the index failed: %v", r.Err)
+		}
+		scanned = append(scanned, r.Key)
+	}
+	sort.Strings(scanned)
+	if strings.Join(scanned, "\x00") != strings.Join(want, "\x00") {
+		c.fail("rangeScan(index idx,[%q,%q),pk=%v) delivered %q, expected %q", a, b, strOf(pk), scanned, want)
+	}
+}
+
 func strOf(p *string) string {
 	if p == nil {
 		return "-"
@@ -570,10 +620,10 @@ func runE2EModel(t *rapid.T, focus string) {
 		}
 	}()
 	c.logf("standalone shards=%d pool=%q", srv.n, c.pool)
-	writes, fanOut, restarted := 0, 0, false
+	writes, fanOut, restarted, idxQ := 0, 0, false, 0
 	n := rapid.IntRange(4, 30).Draw(t, "nOps")
 	for i := 0; i < n; i++ {
-		switch rapid.SampledFrom([]string{"put", "put", "put", "delete", "deleteRange", "get", "get", "listScan", "restart"}).Draw(t, "op") {
+		switch rapid.SampledFrom([]string{"put", "put", "put", "delete", "deleteRange", "get", "get", "listScan", "indexQueries", "restart"}).Draw(t, "op") {
 		case "put":
 			c.put()
 			writes++
@@ -589,6 +639,10 @@ func runE2EModel(t *rapid.T, focus string) {
 		case "listScan":
 			c.listAndScan()
 			fanOut++
+		case "indexQueries":
+			c.indexQueries()
+			fanOut++
+			idxQ++
 		case "restart":
 			if restarted {
 				continue
@@ -662,6 +716,9 @@ func runE2EModel(t *rapid.T, focus string) {
 	if focus == "C20" {
 		nontrivial = nontrivial && srv.n > 1
 	}
+	if focus == "C15" {
+		nontrivial = idxQ > 0 && writes >= 3
+	}
 	if focus == "C17" {
 		nontrivial = c.nExpect >= 3
 		if restarted {
@@ -672,5 +729,6 @@ func runE2EModel(t *rapid.T, focus string) {
 }
 
 func TestC12_E2E(t *testing.T) { rapid.Check(t, func(t *rapid.T) { runE2EModel(t, "C12") }) }
+func TestC15_E2E(t *testing.T) { rapid.Check(t, func(t *rapid.T) { runE2EModel(t, "C15") }) }
 func TestC17_E2E(t *testing.T) { rapid.Check(t, func(t *rapid.T) { runE2EModel(t, "C17") }) }
 func TestC20_E2E(t *testing.T) { rapid.Check(t, func(t *rapid.T) { runE2EModel(t, "C20") }) }
